@@ -115,6 +115,140 @@ def _ordering_outcome(pth, c):
     return set(ords) | {'None'}
 
 
+def _const_outcome(v, env):
+    """'None' / 'Less' / 'Equal' / 'Greater' when v is that constant of Option<Ordering> (or of Ordering), else None"""
+    v = deref(env, v)
+    if isinstance(v, tuple) and v and v[0] == 'agg':
+        if v[1] == 'core::option::Option':
+            if v[2] == 'None':
+                return 'None'
+            if v[2] == 'Some' and v[3]:
+                return _const_outcome(v[3][0], env)
+        if v[1] == 'core::cmp::Ordering' and v[2] in ('Less', 'Equal', 'Greater'):
+            return v[2]
+    if isinstance(v, tuple) and v and v[0] == 'enum' and 'Ordering' in str(v[1]) and v[2] in ('Less', 'Equal', 'Greater'):
+        return v[2]
+    return None
+
+
+def _strip_casts(v):
+    while isinstance(v, tuple) and v and v[0] == 'cast':
+        v = v[1]
+    return v
+
+
+def _apply_predicate_closure(clo, arg, env):
+    """the constant boolean a side-effect-free closure value returns for a constant argument (`|o| [Greater, Equal].contains(&o)`
+    applied to `Less`): its body is evaluated path by path with the parameter bound to the constant and slice membership in a
+    constant array decided; None when the paths do not agree on one constant"""
+    import mirlib
+    F = mirlib.CURRENT_FACTS
+    clo = deref(env, clo)
+    if not (isinstance(clo, tuple) and clo and clo[0] == 'closure') or F is None:
+        return None
+    fn = F.fns.get(clo[1])
+    if fn is None or fn.arg_count != 2 or len(fn.blocks) > 60:
+        return None
+    # captures are looked at through the caller's environment: resolve them now
+    caps = []
+    init = {'_2': arg}
+    for i, x in enumerate(clo[2] if len(clo) > 2 else ()):
+        if isinstance(x, tuple) and x and x[0] == 'ref':
+            init['$cap%d' % i] = deref(env, x)
+            caps.append(('ref', '$cap%d' % i))
+        else:
+            caps.append(deref(env, x) if isinstance(x, tuple) else x)
+    init['$clo'] = ('closure', clo[1], tuple(caps))
+    init['_1'] = ('ref', '$clo') if fn.j['locals'][1]['ty'].startswith('&') else init['$clo']
+    def decide(nm, argv, t):
+        if nm.endswith('::contains') and 'slice' in nm and len(argv) == 2:
+            arr = _strip_casts(argv[0])
+            return ('contains?', arr, argv[1])
+        return None
+    res = set()
+    for pth in AbsInt(F, fn, init_env=init, decide_call=decide, max_paths=400).run():
+        if pth.exit != 'return':
+            if pth.exit in ('panic', 'unreachable'):
+                continue
+            return None
+        r = simp(pth.env.get('_0'))
+        r = deref(pth.env, r) if isinstance(r, tuple) else r
+        if isinstance(r, tuple) and r and r[0] == 'contains?':
+            arr = _strip_casts(deref(pth.env, r[1]))
+            arr = _strip_casts(deref(env, arr)) if not (isinstance(arr, tuple) and arr and arr[0] == 'agg') else arr
+            x = _const_outcome(r[2], pth.env)
+            if not (isinstance(arr, tuple) and arr and arr[0] == 'agg' and x is not None):
+                return None
+            elems = [_const_outcome(e, pth.env) or _const_outcome(e, env) for e in arr[3]]
+            if any(e is None for e in elems):
+                return None
+            res.add(x in elems)
+        elif isinstance(r, tuple) and r and r[0] == 'int' and len(r) > 2 and r[2] == 'bool':
+            res.add(bool(r[1]))
+        else:
+            return None
+    return next(iter(res)) if len(res) == 1 else None
+
+
+def _outcome_test(val, env, c, known=None):
+    """the value handed to Object::bool as a function of the outcome of the partial_cmp call c: {outcome: bool} for the outcomes
+    the path leaves open (`known`, from its variant tests), when the value is a constant, `cmp == Some(Greater)` / `!=`,
+    `cmp.is_some_and(..)`-free boolean combinations (`||`, `&&`, `!`) of those; None when it is something else"""
+    ALL = ('None', 'Less', 'Equal', 'Greater')
+    known = set(known) if known is not None else set(ALL)
+    v = val
+    for _ in range(4):
+        if isinstance(v, tuple) and v and v[0] == 'call' and v[1] == 'object::Object::bool' and v[2]:
+            v = deref(env, v[2][0])
+            continue
+        break
+
+    def is_c(x, inner=False):
+        x = deref(env, x)
+        if isinstance(x, tuple) and x and x[0] == 'call' and x[1] == c[1] and (len(x) < 4 or len(c) < 1 or x[3] == c[0]):
+            return True
+        return False
+
+    def ev(x, depth=0):
+        x = deref(env, x)
+        if depth > 6 or not isinstance(x, tuple) or not x:
+            return None
+        if x[0] == 'int' and len(x) > 2 and x[2] == 'bool':
+            return {o: bool(x[1]) for o in known}
+        if x[0] == 'unop' and x[1] == 'Not':
+            r = ev(x[2], depth + 1)
+            return None if r is None else {o: not b for o, b in r.items()}
+        if x[0] == 'binop' and x[1] in ('BitOr', 'BitAnd'):
+            a, b = ev(x[2], depth + 1), ev(x[3], depth + 1)
+            if a is None or b is None:
+                return None
+            return {o: (a[o] or b[o]) if x[1] == 'BitOr' else (a[o] and b[o]) for o in known}
+        if x[0] == 'call' and x[1].endswith(('Option::<T>::map_or', 'Option::<T>::is_some_and')) and is_c(x[2][0]):
+            # `cmp.map_or(false, |o| accepted.contains(&o))`: the default for no outcome, the predicate for each of the others
+            dflt = ev(x[2][1], depth + 1) if x[1].endswith('map_or') else {o: False for o in known}
+            if dflt is None:
+                return None
+            tab = {}
+            for o in known:
+                if o == 'None':
+                    tab[o] = dflt[o]
+                else:
+                    b = _apply_predicate_closure(x[2][-1], ('agg', 'core::cmp::Ordering', o, ()), env)
+                    if b is None:
+                        return None
+                    tab[o] = b
+            return tab
+        if x[0] == 'call' and x[1].split('::')[-1] in ('eq', 'ne') and 'PartialEq' in x[1] and len(x[2]) == 2:
+            for l, r in ((x[2][0], x[2][1]), (x[2][1], x[2][0])):
+                k = _const_outcome(r, env)
+                if k is not None and is_c(l):
+                    # an Ordering constant compared with the Option itself cannot type-check: k names the outcome
+                    return {o: (o == k) == (x[1].split('::')[-1] == 'eq') for o in known}
+            return None
+        return None
+    return ev(v)
+
+
 def _bool_answer(val, env):
     """True / False when the value handed to Object::bool on this path is a constant, else None"""
     v = val
@@ -208,6 +342,12 @@ def object_method_semantics(ctx):
                             if out_ is not None and bv is not None:
                                 for o_ in out_:
                                     info.setdefault('ordtable', {}).setdefault(sides, {}).setdefault(o_, set()).add(bv)
+                                continue
+                            # `cmp == Some(Greater)`: the answer is a function of the outcome, read from the expression
+                            tab_ = _outcome_test(val, pth.env, c, out_)
+                            if tab_ is not None:
+                                for o_, bv_ in tab_.items():
+                                    info.setdefault('ordtable', {}).setdefault(sides, {}).setdefault(o_, set()).add(bv_)
                                 continue
                         if m in ('eq', 'ne'):
                             # `eq(a, b) == false`, `!eq(a, b)`: the negation of the trait's answer is the other operator
